@@ -30,8 +30,11 @@ Contents (nothing is partial; all operations of the API are covered):
   slot array and across slot reuse: with `WF.live_handle` for the new state, `Get` still returns the
   element with that address and the same value);
 * all histories: `ops_refine` (`ops_refine_zero`, `ops_refine_new`);
-* a finding: `reset_unallocated_panics` — `Reset` on a zero value that was never pushed to panics
-  (case line `deque zero reset`); `ops_refine` therefore excludes exactly that.
+* a repaired defect: `Reset` on a zero value that was never pushed to (or on a clone of one) used to
+  panic — `autoReset` sliced `c.elements[:1]` on the nil slot array; replay line `deque zero reset`.
+  Found by this model (then theorem `reset_unallocated_panics`, and `ops_refine` had to exclude that
+  case); fixed in internal/deque.go by `if len(c.elements) > 0`.  Now `reset_spec` holds for every
+  well-formed state and `ops_refine` accepts `reset` everywhere.
 
 Not expressible on this value model, and left to the correspondence suite `deque` (which compares
 slot addresses too): that a clone shares no memory with the original (`clone_spec`), that no pointer
@@ -157,7 +160,7 @@ theorem popFront_spec (h : WF d (a :: r)) :
       ∀ b ∈ r, (d'.load b).value = (d.load b).value := by
   obtain ⟨hi, hl⟩ := (wf_iff_inv _ _).mp h
   have ha := h.range a (by simp)
-  obtain ⟨d', hu, hi', hl', hv, _⟩ := unlink_inv (l := []) hi hl
+  obtain ⟨d', hu, hi', hl', hv⟩ := unlink_inv (l := []) hi hl
   simp only [List.nil_append] at hu hi' hl' hv
   refine ⟨d', ?_, (wf_iff_inv _ _).mpr ⟨hi', hl'⟩, by simpa using abs_congr hv, hv⟩
   rw [popFront_eq_unlink (a := a) (by simpa using h.head_eq) (by omega) ha.2, hu]; rfl
@@ -173,7 +176,7 @@ theorem popBack_spec (h : WF d (l ++ [a])) :
       ∀ b ∈ l, (d'.load b).value = (d.load b).value := by
   obtain ⟨hi, hl⟩ := (wf_iff_inv _ _).mp h
   have ha := h.range a (by simp)
-  obtain ⟨d', hu, hi', hl', hv, _⟩ := unlink_inv (r := []) hi hl
+  obtain ⟨d', hu, hi', hl', hv⟩ := unlink_inv (r := []) hi hl
   simp only [List.append_nil] at hu hi' hl' hv
   refine ⟨d', ?_, (wf_iff_inv _ _).mpr ⟨hi', hl'⟩, by simpa using abs_congr hv, hv⟩
   rw [popBack_eq_unlink (a := a) (by simpa using h.tail_eq) (by omega) ha.2, hu]; rfl
@@ -187,7 +190,7 @@ theorem remove_spec (h : WF d (l ++ a :: r)) :
       ∀ b ∈ l ++ r, (d'.load b).value = (d.load b).value := by
   obtain ⟨hi, hl⟩ := (wf_iff_inv _ _).mp h
   have ha := h.range a (by simp)
-  obtain ⟨d', hu, hi', hl', hv, _⟩ := unlink_inv hi hl
+  obtain ⟨d', hu, hi', hl', hv⟩ := unlink_inv hi hl
   refine ⟨d', by rw [remove_eq_unlink (by omega) ha.2, hu], (wf_iff_inv _ _).mpr ⟨hi', hl'⟩, ?_, hv⟩
   rw [abs_congr hv, abs_append]
 
@@ -258,20 +261,16 @@ theorem update_spec (h : WF d (l ++ a :: r)) (v : Nat) :
 
 /-! ## reset, clone -/
 
-/-- `Reset` on a deque whose slot array is allocated (anything but a zero value that was never pushed
-to): succeeds and leaves a well-formed empty deque with the slot array still allocated. -/
-theorem reset_spec (h : WF d as) (he : d.elements ≠ []) :
-    ∃ d', d.reset = some d' ∧ WF d' [] ∧ d'.elements ≠ [] := by
-  obtain ⟨d', hr, hi, hl, hne⟩ := autoReset_inv h.tmpl he
-  exact ⟨d', hr, (wf_iff_inv _ _).mpr ⟨hi, by simpa using hl⟩, hne⟩
+/-- `Reset` on *every* well-formed deque — including a zero value that was never pushed to, whose slot
+array does not exist yet — cannot panic (`reset` is a total function of the model) and leaves a
+well-formed empty deque; the slot array is cut back to the sentinel slot, or stays unallocated. -/
+theorem reset_spec (h : WF d as) :
+    WF d.reset [] ∧ d.reset.elements.length = min 1 d.elements.length := by
+  obtain ⟨hi, hl⟩ := autoReset_inv (d := d) h.tmpl
+  exact ⟨(wf_iff_inv _ _).mpr ⟨hi, by simpa [reset] using hl⟩, (autoReset_spec d).2.2.2.2.2⟩
 
-/-- **Finding.** `Reset` on the zero value (or on a clone of it) before any push panics: `autoReset`
-evaluates `c.elements[:1]` on a slice of capacity 0. -/
-theorem reset_unallocated_panics (he : d.elements = []) : d.reset = none := by
-  simp [reset, autoReset, he]
-
-/-- Every operation leaves the slot array allocated once it is; and after the first push it is. So
-the precondition of `reset_spec` fails only for a never-pushed-to zero value. -/
+/-- A non-empty deque has its slot array allocated (so has every deque from `New`, `wf_new`); only a
+zero value that was never pushed to, and clones of it, have none. -/
 theorem allocated_of_nonempty (h : WF d as) (hne : as ≠ []) : d.elements ≠ [] := by
   cases as with
   | nil => exact absurd rfl hne
@@ -294,9 +293,8 @@ theorem clone_wf (h : WF d as) : WF d.clone as ∧ abs d.clone as = abs d as := 
 the ordinal of the push/insert that created the element), plus `clone` (append a copy of the current
 instance as a new instance) and `use k` (switch the current instance).  `SState.run` executes them on
 plain lists of `(id, value)` — one list per instance — and rejects a sequence (`none`) only if it
-names an id that is not live in the current instance, switches to an instance that does not exist, or
-resets a never-pushed-to zero value (`reset_unallocated_panics`).  `MState.run` executes them on the
-model, one deque and one id→handle map per instance.
+names an id that is not live in the current instance or switches to an instance that does not exist.
+`MState.run` executes them on the model, one deque and one id→handle map per instance.
 
 For every operation sequence (no bound on its length) that the reference accepts, started from any
 well-formed empty deque: the model never panics and after *every* operation the observations — the
@@ -304,23 +302,22 @@ operation's own result (the value behind the returned element, the popped value,
 recorded before it was told to stop), `Len`, the full iteration order of values, and the values of
 `Front` and `Back` — of the instance operated on are equal to those of the plain list.  In
 particular what happens to a clone never shows in the original and vice versa. -/
-theorem ops_refine (d : Deque) (alloc : Bool) (h : WF d []) (ha : alloc = true → d.elements ≠ [])
-    (ops : List Op) (obs : List Obs) (hs : (SState.init alloc).run ops = some obs) :
-    (MState.init d).run ops = some obs := by
+theorem ops_refine (d : Deque) (h : WF d []) (ops : List Op) (obs : List Obs)
+    (hs : SState.init.run ops = some obs) : (MState.init d).run ops = some obs := by
   obtain ⟨hi, hl⟩ := (wf_iff_inv d []).mp h
-  exact run_refines (init_related hi (by simpa using hl) ha) ops obs hs
+  exact run_refines (init_related hi (by simpa using hl)) ops obs hs
 
 /-- `ops_refine` for the zero value. -/
-theorem ops_refine_zero (ops : List Op) (obs : List Obs) (hs : (SState.init false).run ops = some obs) :
+theorem ops_refine_zero (ops : List Op) (obs : List Obs) (hs : SState.init.run ops = some obs) :
     (MState.init zero).run ops = some obs :=
-  ops_refine zero false wf_zero (by simp) ops obs hs
+  ops_refine zero wf_zero ops obs hs
 
 /-- `ops_refine` for `New(capacity)`. -/
 theorem ops_refine_new (c : Int) (hc : 0 ≤ c) :
     ∃ d, Deque.new c = some d ∧ ∀ (ops : List Op) (obs : List Obs),
-      (SState.init true).run ops = some obs → (MState.init d).run ops = some obs := by
-  obtain ⟨d, hn, hw, he⟩ := wf_new c hc
-  exact ⟨d, hn, fun ops obs hs => ops_refine d true hw (fun _ => he) ops obs hs⟩
+      SState.init.run ops = some obs → (MState.init d).run ops = some obs := by
+  obtain ⟨d, hn, hw, _⟩ := wf_new c hc
+  exact ⟨d, hn, fun ops obs hs => ops_refine d hw ops obs hs⟩
 
 /-! ## non-vacuity -/
 
@@ -350,18 +347,20 @@ example : (do
     pure (d.stack, d.elements.length, d.length) : Option (List Nat × Nat × Int)) = some ([], 1, 0) := by
   decide
 
--- the finding: Reset on the zero value panics, while New(0) can be reset
-example : zero.reset = none := by decide
-example : (Deque.new 0).bind reset = some { elements := [{}] } := by decide
+-- Reset on the never-used zero value (the repaired defect) leaves it as it is; New(0) keeps its slot
+example : zero.reset = zero := by decide
+example : (Deque.new 0).map reset = some { elements := [{}] } := by decide
 
 -- the reference accepts (so `ops_refine` speaks about) a sequence that uses every operation,
 -- and rejects a dead id
-example : ((SState.init false).run
+example : (SState.init.run
     [.pushBack 1, .pushFront 2, .insertAfter 3 0, .insertBefore 4 1, .moveToFront 0, .moveToBack 1,
      .update 2 9, .clone, .use 1, .remove 0, .popFront, .range 1, .use 0, .popBack, .reset]).isSome := by
   decide
-example : (SState.init false).run [.pushBack 1, .popFront, .remove 0] = none := by decide
-example : (SState.init false).run [.reset] = none := by decide
+example : SState.init.run [.pushBack 1, .popFront, .remove 0] = none := by decide
+-- reset as the very first operation on the zero value is accepted, and on a clone of it
+example : ((MState.init zero).run [.reset, .clone, .use 1, .reset, .pushBack 7]).map (·.map (·.seq)) =
+    some [[], [], [], [], [7]] := by decide
 
 -- and on that sequence the model's observations are not trivial: after `use 0` the original still
 -- has all four elements although the clone lost two of them
